@@ -1,24 +1,26 @@
 ---------------------------- MODULE KVVAlphabet ----------------------------
 (* Prints the request alphabets of KVV.tla as JSON: the harness explores the  *)
 (* real stores with exactly the requests the specification names.             *)
-(*   KVV_KIND   "pair" (memory + redb in lockstep) or "cloud"                 *)
-(*   KVV_NKEYS  2 -> {k, kk}   3 -> {k, kk, l}                                *)
-(*   KVV_MAXVER versions 0..MAXVER in put_with_version / put_batch            *)
+(* KVV_JOBS names a JSON file: a list of [kind, nkeys, maxver, out]            *)
+(*   kind   "pair" (memory + redb in lockstep) or "cloud"                      *)
+(*   nkeys  2 -> {k, kk}   3 -> {k, kk, l}                                     *)
+(*   maxver versions 0..maxver in put_with_version / put_batch                 *)
+(* Each output file is [keys: the key universe in store order, reqs: ...].     *)
 EXTENDS KVV, Json, IOUtils, SequencesExt
 
-Num(s) == CHOOSE n \in 0..16 : ToString(n) = s
-MaxVer == Num(IOEnv.KVV_MAXVER)
-Ks == IF IOEnv.KVV_NKEYS = "3" THEN {"k", "kk", "l"} ELSE {"k", "kk"}
-Ps == IF IOEnv.KVV_NKEYS = "3" THEN {"", "k", "kk", "ka", "l"} ELSE {"", "k", "kk", "ka"}
+Jobs == JsonDeserialize(IOEnv.KVV_JOBS)
 Xs == {"a", "b", ""}
+KeysOf(n) == IF n = 3 THEN {"k", "kk", "l"} ELSE {"k", "kk"}
+PsOf(n)   == IF n = 3 THEN {"", "k", "kk", "ka", "l"} ELSE {"", "k", "kk", "ka"}
 
-Reqs == IF IOEnv.KVV_KIND = "pair"
-        THEN PairRequests(Ks, MaxVer, Xs, {"a", "b"}, Ps)
-        \* cloud batches are put_with_version in a loop: a few pairs are enough
-        ELSE CloudRequests(Ks, MaxVer, Xs, Ks, {0, MaxVer}, {"a"}, {"", "k"})
+Reqs(j) == IF j.kind = "pair"
+           THEN PairRequests(KeysOf(j.nkeys), j.maxver, Xs, {"a", "b"}, PsOf(j.nkeys))
+           \* cloud batches are put_with_version in a loop: a few are enough
+           ELSE CloudRequests(KeysOf(j.nkeys), j.maxver, Xs, KeysOf(j.nkeys), {0, j.maxver}, {"a"}, {"", "k"})
 
 VARIABLE x
 Init == x = 0
 Next == UNCHANGED x
-ASSUME JsonSerialize(IOEnv.KVV_OUT, [keys |-> KeyOrder, reqs |-> SetToSeq(Reqs)])
+ASSUME \A i \in DOMAIN Jobs :
+         JsonSerialize(Jobs[i].out, [keys |-> KeyOrder, reqs |-> SetToSeq(Reqs(Jobs[i]))])
 =============================================================================
